@@ -42,7 +42,7 @@ def find_queries():
 @prop('C02')
 def c02():
     return dict(
-        queries=find_queries() + stack_queries(2) + plumb_queries(2, (2, 3, 4, 5)) + [q for q in seqkern_queries(2) if q['defs']['VF_OP'] == 0 and q['tier'] == 'quick'] + [Q('seqpick_%d' % sc, 'api/seqpick.cpp', 6, tier='thorough' if sc == 5 else 'quick', defs={'VF_SCENE': sc, 'VF_CLAIM': 2}, timeout=1500 if sc == 5 else 900, portfolio=sc >= 5) for sc in (1, 2, 3, 4, 5, 6)],
+        queries=find_queries() + stack_queries(2) + plumb_queries(2, (2, 3, 4, 5)) + [q for q in seqkern_queries(2) if q['defs']['VF_OP'] == 0 and q['tier'] == 'quick'] + seqstep_queries(2, quick_only=2)[:2] + [Q('seqpick_%d' % sc, 'api/seqpick.cpp', 6, tier='thorough' if sc == 5 else 'quick', defs={'VF_SCENE': sc, 'VF_CLAIM': 2}, timeout=1500 if sc == 5 else 900, portfolio=sc >= 5) for sc in (1, 2, 3, 4, 5, 6)],
         level='model_checking',
         level_text='Bounded: the real find<Sig>() selection loop is decided against the C02 selection rule for every match/cost vector of lists up to the stated length.',
         bound='find<Sig>: list length N<=4 (quick) / <=6 (thorough), all 2^N match vectors x all 32-bit cost vectors',
@@ -76,7 +76,7 @@ STACK_BOUND = ('api/stack: N<=2 (quick) / N<=3 (thorough) live expectations f(ge
 @prop('C01')
 def c01():
     return dict(
-        queries=find_queries() + stack_queries(1) + plumb_queries(1, (1, 2, 6)) + seqstep_queries(1, quick_only=1)[:1] + [Q('dtor_order5', 'C04/dtor.cpp', 10, defs={'VF_ORDER': 5, 'VF_CLAIM': 1}, timeout=900, portfolio=True)] + [q for q in mismatch_queries(1) if q['tier'] == 'quick' and q['defs']['VF_NA'] + q['defs']['VF_NS'] <= 2],
+        queries=find_queries() + stack_queries(1) + plumb_queries(1, (1, 2, 6)) + [q for q in seqkern_queries(1) if q['defs']['VF_OP'] == 0 and q['defs']['VF_K'] == 2 and q['defs']['VF_N'] == 3 and q['tier'] == 'quick'] + [Q('actions_W%d_S1_mode0_at0_b%d' % (w, b), 'C08/actions.cpp', 6, defs={'VF_W': w, 'VF_S': 1, 'VF_MODE': 0, 'VF_AT': 0, 'VF_B': b, 'VF_CLAIM': 1}) for w, b in ((2, 2), (3, 4), (3, 6), (3, 5))] + seqstep_queries(1, quick_only=1)[:1] + [Q('dtor_order5', 'C04/dtor.cpp', 10, defs={'VF_ORDER': 5, 'VF_CLAIM': 1}, timeout=900, portfolio=True)] + [q for q in mismatch_queries(1) if q['tier'] == 'quick' and q['defs']['VF_NA'] + q['defs']['VF_NS'] <= 2],
         level='model_checking',
         level_text='Bounded: real find<Sig>() for all match/cost vectors; one real mock call against N<=2(3) real stacked expectations from an arbitrary invariant-satisfying counter state with arbitrary matcher operands and argument: accepted iff the designated candidate exists and is not forbidding, otherwise exactly one fatal report and no effect.',
         bound=STACK_BOUND + '; find<Sig> list length <=4 (6)',
@@ -93,7 +93,7 @@ def c03():
     for r in (1, 2):
         qs.append(Q('run_regime%d' % r, 'C03/run.cpp', 4, tier='thorough', defs={'VF_REGIME': r}, timeout=600))
     return dict(
-        queries=qs + stack_queries(3) + [Q('dtor_order%d' % o, 'C04/dtor.cpp', 10, defs={'VF_ORDER': o, 'VF_CLAIM': 3}, timeout=900) for o in (1, 4)] + plumb_queries(3, (7, 8, 9)) + [Q('mismatch_A1_S1_15', 'C15/mismatch.cpp', 14, defs={'VF_NA': 1, 'VF_NS': 1, 'VF_C0': 1, 'VF_C1': 5, 'VF_CLAIM': 3})],
+        queries=qs + stack_queries(3) + [Q('dtor_order%d' % o, 'C04/dtor.cpp', 10, defs={'VF_ORDER': o, 'VF_CLAIM': 3}, timeout=900) for o in (1, 4)] + plumb_queries(3, (7, 8, 9, 10, 12)) + [q for q in mismatch_queries(3) if q['tier'] == 'quick' and q['defs']['VF_NS'] == 2 and q['defs']['VF_NA'] == 0] + [Q('mismatch_A1_S1_15', 'C15/mismatch.cpp', 14, defs={'VF_NA': 1, 'VF_NS': 1, 'VF_C0': 1, 'VF_C1': 5, 'VF_CLAIM': 3})],
         level='model_checking',
         level_text='Bounded/inductive: counter predicates for all 64-bit (L,H,count); one real mock call from an arbitrary invariant-satisfying counter state moves the expectation to the saturated list iff count reaches H, stacked or alone.',
         bound='one step from an arbitrary counter state; ' + STACK_BOUND,
@@ -129,7 +129,7 @@ def c08():
                                     defs={'VF_W': w, 'VF_S': sn, 'VF_MODE': mode, 'VF_AT': at, 'VF_B': b, 'VF_CLAIM': 8}, tv=(i % 11 == 0), timeout=600))
                         i += 1
     return dict(
-        queries=qs + stack_queries(8, quick_shapes=((1, 0), (2, 1), (2, 2)), thorough_shapes=((2, 0), (3, 0))) + plumb_queries(8, (11,)),
+        queries=qs + stack_queries(8, quick_shapes=((1, 0), (2, 1), (2, 2)), thorough_shapes=((2, 0), (3, 0))) + plumb_queries(8, (11,)) + [Q('dtor_order5', 'C04/dtor.cpp', 10, defs={'VF_ORDER': 5, 'VF_CLAIM': 8}, timeout=900, portfolio=True)] + [q for q in mismatch_queries(8) if q['tier'] == 'quick' and q['defs']['VF_NA'] + q['defs']['VF_NS'] <= 2 and q['defs']['VF_NA'] >= 1],
         level='model_checking',
         level_text='Bounded: for every clause arrangement (0..3 WITH x 0..3 SIDE_EFFECT x RETURN/THROW/throwing side effect/void) and every WITH outcome vector: WITH clauses run in declaration order and stop at the first false, side effects run once each in order and only then RETURN/THROW once, the value / exception reaches the caller for all 32-bit values, a throwing call still counts, and a shadowed expectation\'s actions never run.',
         bound='clause arrangements up to 3+3 (enumerated shapes, WITH outcomes as shape); argument, returned and thrown values symbolic; ' + STACK_BOUND,
@@ -141,7 +141,7 @@ def c08():
 @prop('C04')
 def c04():
     qs = [Q('dtor_order%d' % o, 'C04/dtor.cpp', 10, defs={'VF_ORDER': o, 'VF_CLAIM': 4}, timeout=900, portfolio=(o == 5)) for o in (0, 1, 2, 3, 4, 5)]
-    qs += plumb_queries(4, (10,)) + [q for q in mismatch_queries(4) if q['tier'] == 'quick' and q['defs']['VF_NA'] <= 1]
+    qs += plumb_queries(4, (10, 13)) + [q for q in mismatch_queries(4) if q['tier'] == 'quick' and q['defs']['VF_NA'] <= 1]
     return dict(
         queries=qs,
         level='model_checking',
@@ -230,7 +230,7 @@ def c14():
                 qs.append(Q('list_N%d_op%d_pos%d' % (n, op, pos), 'C14/list.cpp', n + 4, tier='quick' if n <= 3 else 'thorough',
                             defs={'VF_N': n, 'VF_OP': op, 'VF_POS': pos}, tv=(n == 3 and pos == 0)))
     return dict(
-        queries=qs + death_queries(14) + [Q('dtor_order%d' % o, 'C04/dtor.cpp', 10, defs={'VF_ORDER': o, 'VF_CLAIM': 14}, timeout=600) for o in (1, 3)] + plumb_queries(14, (10,)) + [Q('seqgone_%d' % v, 'C14/seqgone.cpp', 6, defs={'VF_V': v, 'VF_CLAIM': 14}, sanitize=True) for v in (0, 1, 2)] + order_queries(14),
+        queries=qs + death_queries(14) + [Q('dtor_order%d' % o, 'C04/dtor.cpp', 10, defs={'VF_ORDER': o, 'VF_CLAIM': 14}, timeout=600) for o in (1, 3)] + plumb_queries(14, (10, 13)) + [Q('seqgone_%d' % v, 'C14/seqgone.cpp', 6, defs={'VF_V': v, 'VF_CLAIM': 14}, sanitize=True) for v in (0, 1, 2)] + order_queries(14),
         level='model_checking',
         level_text='Bounded: intrusive list primitives keep the ring invariant at every position of rings up to 4; every short destruction/copy/move/assignment history of a deathwatched object and its requirements, and mock-before-expectation destruction, run without touching freed or dead memory (CBMC pointer checks on every dereference of the IR-derived code).',
         bound='list rings n<=3 (4), every position, ops {push, unlink, move-ctor, move-assign, list move, dtor}; every third (quick) / every (thorough) destruction order of {mock, plain expectation, sequenced expectation, sequence, tracer} with probes on the survivors; ' + DEATH_BOUND,
@@ -252,16 +252,17 @@ def seqkern_queries(nn):
                     for pick in range(n):
                         for op in (1, 2, 4):
                             shapes.append((n, k, gone, op, pick, tier))
-                if k == 1:
+                if k == 1 or (k == 2 and gone == 0):
                     shapes.append((n, k, gone, 3, 0, tier))
     qs = []
     for i, (n, k, gone, op, pick, tier) in enumerate(shapes):
-        qs.append(Q('seqkern_N%d_K%d_gone%d_op%d_pick%d' % (n, k, gone, op, pick), 'seq/kern.cpp', 14, tier=tier,
-                    defs={'VF_N': n, 'VF_K': k, 'VF_GONE': gone, 'VF_OP': op, 'VF_PICK': pick, 'VF_CLAIM': nn}, tv=(i % 7 == 0), timeout=300))
+        for ordv in ((0, 1) if k == 2 else (0,)):
+            qs.append(Q('seqkern_N%d_K%d%s_gone%d_op%d_pick%d' % (n, k, 'ba' if ordv else '', gone, op, pick), 'seq/kern.cpp', 14, tier=tier,
+                        defs={'VF_N': n, 'VF_K': k, 'VF_ORD': ordv, 'VF_GONE': gone, 'VF_OP': op, 'VF_PICK': pick, 'VF_CLAIM': nn}, tv=(i % 7 == 0), timeout=300))
     return qs
 
 
-SEQKERN_BOUND = ('seq/kern: N<=3 (quick) / 4 (thorough) real handles in 1..2 real sequences, every subset already retired, all 64-bit (L,H,count) per handle; '
+SEQKERN_BOUND = ('seq/kern: N<=3 (quick) / 4 (thorough) real handles in 1..2 real sequences (with two sequences a handle sits at different positions in them, named in either order), every subset already retired, all 64-bit (L,H,count) per handle; '
                  'one of {query, retire_predecessors, retire, sequence destruction, handle destruction} at every position')
 
 
@@ -386,7 +387,7 @@ def mismatch_queries(nn, quick_na=2, quick_ns=1):
             if na + ns == 0 or na + ns > 4: continue
             for act in itertools.product(range(5), repeat=na):
                 for sat in itertools.product(range(6), repeat=ns):
-                    quick = na <= quick_na and ns <= quick_ns
+                    quick = (na <= quick_na and ns <= quick_ns) or (ns == 2 and na <= 1 and set(sat) <= {0, 5} and set(act) <= {0, 3})
                     if not quick and (hash((act, sat)) % 5): continue       # a fifth of the larger shapes in the thorough tier
                     oc = list(act) + list(sat)
                     defs = {'VF_NA': na, 'VF_NS': ns, 'VF_CLAIM': nn}
@@ -402,7 +403,7 @@ def c15():
     qs = mismatch_queries(15)
     qs += [Q('dtor_order%d' % o, 'C04/dtor.cpp', 10, defs={'VF_ORDER': o, 'VF_CLAIM': 15}, timeout=600) for o in (0, 1, 4)]
     qs += [q for q in death_queries(15) if q['tier'] == 'quick' and len(q['name']) <= len('death_multi_12')]
-    qs += seqdeath2_queries(15) + seqstep_queries(15, quick_only=2) + [Q('seqdeath_K%d' % k, 'api/seqdeath.cpp', 6, defs={'VF_K': k, 'VF_CLAIM': 15}, timeout=900) for k in (1, 2)]
+    qs += plumb_queries(15, (13,)) + seqdeath2_queries(15) + seqstep_queries(15, quick_only=2) + [Q('seqdeath_K%d' % k, 'api/seqdeath.cpp', 6, defs={'VF_K': k, 'VF_CLAIM': 15}, timeout=900) for k in (1, 2)]
     return dict(
         queries=qs,
         level='model_checking',
@@ -416,8 +417,9 @@ def c15():
 def trace_shapes(maxlen):
     out = []
     for n in range(1, maxlen + 1):
-        for seq in itertools.product((1, 3, 4, 5, 6, 7, 8, 9), repeat=n):
-            if n > 2 and maxlen <= 3 and (seq.count(8) + seq.count(9) > 1 or (seq.count(8) + seq.count(9) == 1 and len(set(seq) & {4, 5, 6, 7}) > 0 and seq.count(1) == 0)): continue
+        for seq in itertools.product((1, 2, 3, 4, 5, 6, 7, 8, 9), repeat=n):
+            sp = seq.count(8) + seq.count(9) + seq.count(2)
+            if n > 2 and maxlen <= 3 and (sp > 1 or (sp == 1 and len(set(seq) & {4, 5, 6, 7}) > 0 and seq.count(1) == 0)): continue
             d = 0; ok = True; calls = 0
             for o in seq:
                 if o == 1:
@@ -444,7 +446,7 @@ def c17():
             seen.add(seq)
             defs = {'VF_O%d' % (j + 1): (seq[j] if j < len(seq) else 0) for j in range(6)}
             defs['VF_CLAIM'] = 17
-            qs.append(Q('trace_' + ''.join(map(str, seq)), 'C17/trace.cpp', 6, tier=tier, defs=defs, tv=(i % 10 == 0), timeout=300))
+            qs.append(Q('trace_' + ''.join(map(str, seq)), 'C17/trace.cpp', 10, tier=tier, defs=defs, tv=(i % 10 == 0), timeout=300))
     return dict(
         queries=qs,
         level='model_checking',
